@@ -548,6 +548,7 @@ class OptionsParser:
 
         if '=' in option:
             option, value = option.split('=', 1)
+            option = option.lower()
 
             handler = self._handlers.get(option)
             if handler:
@@ -556,7 +557,7 @@ class OptionsParser:
                 values = cast(List[str], self.options.setdefault(option, []))
                 values.append(value)
         else:
-            self.options[option] = True
+            self.options[option.lower()] = True
 
     def _parse_options(self, line: str) -> str:
         """Parse options in this entry"""
